@@ -26,11 +26,11 @@ Leaf(id, subj, key, issuer, signer, dns) ==
 
 \* --- host name matching (the statement: exact, leftmost-label wildcard, IP SAN; case-insensitive, trailing dot of the host ignored) ---
 Lower(s) == s      \* names in the catalogue are lower case; case variants are listed explicitly as equivalents below
-Labels == [n \in {"a.example.com", "b.a.example.com", "example.com", "other.org", "*.example.com", "*.a.example.com", "a.*.com"} |->
+Labels == [n \in {"a.example.com", "b.a.example.com", "example.com", "other.org", "*.example.com", "*.a.example.com", "a.*.com", "*", "localhost"} |->
              CASE n = "a.example.com" -> <<"a", "example", "com">> [] n = "b.a.example.com" -> <<"b", "a", "example", "com">>
                [] n = "example.com" -> <<"example", "com">> [] n = "other.org" -> <<"other", "org">>
                [] n = "*.example.com" -> <<"*", "example", "com">> [] n = "*.a.example.com" -> <<"*", "a", "example", "com">>
-               [] n = "a.*.com" -> <<"a", "*", "com">>]
+               [] n = "a.*.com" -> <<"a", "*", "com">> [] n = "*" -> <<"*">> [] n = "localhost" -> <<"localhost">>]
 \* the requested name as typed -> its canonical form
 Canon(h) == CASE h = "A.Example.COM" -> "a.example.com" [] h = "a.example.com." -> "a.example.com" [] OTHER -> h
 MatchPattern(pat, host) ==
@@ -45,7 +45,10 @@ NameOK(leaf, q) ==
 InDomain(name, dom) == LET n == Labels[Canon(name)] d == Labels[dom] IN
                        Len(n) >= Len(d) /\ \A i \in 1..Len(d) : n[Len(n) - Len(d) + i] = d[i]
 ConstraintOK(c, q) == c.permitted = {} \/ q.name = "" \/ q.kind = "ip" \/ \E d \in c.permitted : InDomain(q.name, d)
-TimeOK(c, q) == c.nb <= q.time /\ q.time <= c.na
+\* the verification time is q.time days plus q.sub half seconds (certificate times are whole seconds; the verification time
+\* need not be): valid from NotBefore to NotAfter inclusive, not half a second earlier or later
+TimeOK(c, q) == /\ (c.nb < q.time \/ (c.nb = q.time /\ q.sub >= 0))
+                /\ (q.time < c.na \/ (q.time = c.na /\ q.sub <= 0))
 UsageOK(leaf, q) == "any" \in q.usages \/ leaf.eku = {} \/ "any" \in leaf.eku \/ (q.usages \cap leaf.eku) # {}
 
 \* --- chains ---
@@ -80,7 +83,7 @@ ValidChains(sc) ==
     ELSE {ch \in Paths(sc, <<sc.leaf>>, Cardinality(Ids(sc)) - 1) : Len(ch) >= 2 /\ ChainOK(sc, ch)}
 
 \* --- PKI templates ---
-Q0 == [time |-> 5, name |-> "a.example.com", kind |-> "dns", usages |-> {"server"}]
+Q0 == [time |-> 5, sub |-> 0, name |-> "a.example.com", kind |-> "dns", usages |-> {"server"}]
 Fn(cs) == [i \in {c.id : c \in cs} |-> CHOOSE c \in cs : c.id = i]
 DNS0 == {"a.example.com"}
 \* linear: leaf <- I1 <- I2 <- R (depth d = number of intermediates 0..2)
@@ -147,18 +150,25 @@ ApplyC(c, k) == CASE k = "expired" -> [c EXCEPT !.na = 3] [] k = "notyet" -> [c 
 \* knobs that make sense for a certificate: leaves have no CA knobs
 KnobsFor(c) == IF c.ca THEN CertKnobs \ {"crit"} ELSE {"none", "expired", "notyet", "forged", "crit"}
 \* "unknown" stands for an extended key usage the library has no name for
-QueryKnobs == {"q_none", "time_before", "time_after", "name_case", "name_dot", "name_other", "name_empty", "use_client", "use_any",
-               "leaf_wild_ok", "leaf_wild_deep", "leaf_wild_mid", "leaf_eku_client", "leaf_eku_none", "leaf_ip_ok", "leaf_ip_bad",
+QueryKnobs == {"q_none", "time_before", "time_after", "time_at_na", "time_past_na", "time_at_nb", "time_ahead_nb", "name_case", "name_dot", "name_other", "name_empty", "use_client", "use_any",
+               "leaf_wild_ok", "leaf_wild_deep", "leaf_wild_mid", "leaf_wild_bare", "leaf_wild_bare_deep", "leaf_eku_client", "leaf_eku_none", "leaf_ip_ok", "leaf_ip_bad",
                "leaf_eku_unknown", "leaf_eku_server_unknown", "leaf_eku_unknown_use_any"}
 ApplyQ(sc, k) ==
   LET L == sc.certs[sc.leaf]
       setL(c) == [sc EXCEPT !.certs = [sc.certs EXCEPT ![sc.leaf] = c]] IN
   CASE k = "time_before" -> [sc EXCEPT !.q.time = -1] [] k = "time_after" -> [sc EXCEPT !.q.time = 11]
+    \* exactly at the leaf's NotAfter / NotBefore, and half a second beyond
+    [] k = "time_at_na" -> [sc EXCEPT !.q.time = L.na] [] k = "time_past_na" -> [sc EXCEPT !.q.time = L.na, !.q.sub = 1]
+    [] k = "time_at_nb" -> [sc EXCEPT !.q.time = L.nb] [] k = "time_ahead_nb" -> [sc EXCEPT !.q.time = L.nb, !.q.sub = -1]
     [] k = "name_case" -> [sc EXCEPT !.q.name = "A.Example.COM"] [] k = "name_dot" -> [sc EXCEPT !.q.name = "a.example.com."]
     [] k = "name_other" -> [sc EXCEPT !.q.name = "other.org"] [] k = "name_empty" -> [sc EXCEPT !.q.name = ""]
     [] k = "use_client" -> [sc EXCEPT !.q.usages = {"client"}] [] k = "use_any" -> [sc EXCEPT !.q.usages = {"any"}]
     [] k = "leaf_wild_ok" -> setL([L EXCEPT !.dns = {"*.example.com"}])
     [] k = "leaf_wild_deep" -> [setL([L EXCEPT !.dns = {"*.example.com"}]) EXCEPT !.q.name = "b.a.example.com"]
+    \* a pattern that is nothing but the wildcard label: it stands for exactly one label, so it covers a single-label host
+    \* and no host with a dot
+    [] k = "leaf_wild_bare" -> [setL([L EXCEPT !.dns = {"*"}]) EXCEPT !.q.name = "localhost"]
+    [] k = "leaf_wild_bare_deep" -> setL([L EXCEPT !.dns = {"*"}])
     [] k = "leaf_wild_mid" -> setL([L EXCEPT !.dns = {"a.*.com"}])
     [] k = "leaf_eku_client" -> setL([L EXCEPT !.eku = {"client"}]) [] k = "leaf_eku_none" -> setL([L EXCEPT !.eku = {}])
     [] k = "leaf_eku_unknown" -> setL([L EXCEPT !.eku = {"unknown"}]) [] k = "leaf_eku_server_unknown" -> setL([L EXCEPT !.eku = {"server", "unknown"}])
